@@ -59,7 +59,7 @@ def run(ctx):
             choices += [fin[0] * 0.5, fin[-1] * 2 + 1, rng.choice(fin) * rng.choice([1.0, 1.0001, 0.9999])]
         max_dist = rng.choice(choices)
         hook_kind = rng.choice(["none", "none", "weight", "order", "both"])
-        variant = rng.choice(["flat", "flat", "tree"])
+        variant = rng.choice(["flat", "flat", "tree", "tree_kwargs"])
         wit = dict(series=ss, options=opts, use_c=use_c, max_dist=max_dist, hooks=hook_kind, variant=variant)
 
         def build():
@@ -73,7 +73,7 @@ def run(ctx):
             def merge_hook(frm, to, dist):
                 res = wh(frm, to, dist) if wh else None
                 # a keeps, b is deleted; HierarchicalTree wraps the hook and drops its return value
-                a, b = (res if (res and variant != "tree") else (to, frm))
+                a, b = (res if (res and not variant.startswith("tree")) else (to, frm))
                 a, b = int(a), int(b)
                 D = captured.get("D")
                 ctx.count("merge_events_checked")
@@ -105,6 +105,11 @@ def run(ctx):
                 tree = H.HierarchicalTree(model)
                 self_max[0] = inf       # the tree variant resets max_dist (documented)
                 return tree, events, alive, state
+            if variant == "tree_kwargs":
+                tree = H.HierarchicalTree(dists_fun=dists_fun, dists_options=dict(opts), max_dist=max_dist,
+                                          merge_hook=merge_hook, order_hook=oh, show_progress=False)
+                self_max[0] = inf
+                return tree, events, alive, state
             return model, events, alive, state
 
         ctx.current("fit %r" % (wit,))
@@ -116,7 +121,7 @@ def run(ctx):
             continue
         ctx.count("fits_checked")
         ctx.case(("fit", repr(ss), dtwmon.settings_key(opts), use_c, max_dist, hook_kind, variant), n >= 3 and len(events) >= 1)
-        eff_max = inf if variant == "tree" else max_dist
+        eff_max = inf if variant.startswith("tree") else max_dist
         D = captured.get("D")
         bad = state["bad"]
         members = sorted(i for v in res.values() for i in v)
@@ -139,7 +144,7 @@ def run(ctx):
                           events=events, **wit)
             continue
         # tree well-formedness
-        if variant == "tree" and D is not None and np.all(np.isfinite(D[np.triu_indices(n, 1)])):
+        if variant.startswith("tree") and D is not None and np.all(np.isfinite(D[np.triu_indices(n, 1)])):
             Z = list(model.linkage)
             ctx.count("trees_checked")
             problem = None
